@@ -102,7 +102,7 @@ def rule(fn, kind, expr, ordn, guards, contract):
     # ---------------- padding ----------------
     if fn == 'crypto/padding.PadPKCS7':
         if kind == 'make':
-            return '.sizeFromLen "bufLen+padLen, padLen in 1..size"'
+            return thm('C07Imported', 'Kit.C07.pad_never_panics', need('!(size <= 1 || size >= 256)'))
         return thm('C07Imported', 'Kit.C07.pad_never_panics', need('!(size <= 1 || size >= 256)'))
     if fn == 'crypto/padding.UnpadPKCS7':
         if kind == 'div':
@@ -140,9 +140,7 @@ def rule(fn, kind, expr, ordn, guards, contract):
             return thm('C07Imported', 'Kit.C07.cbcHmacOpen_never_panics', need('!(len(ciphertext)%aes.BlockSize != 0)'))
         return thm('C07Imported', 'Kit.C07.cbcHmacOpen_never_panics', need('!(len(ciphertext) < aead.tagSize)'))
     if fn == 'crypto/aescbcaead.aesCBCAEAD.hmacTag':
-        if kind == 'call':
-            return '.constIndex "al is made with 8 bytes"'
-        return thm('C07Imported', 'Kit.C07.aescbcaead_params_sound', [])
+        return thm('C07Sites', 'Kit.C07.hmacTag_sites', [])
     # ---------------- enc ----------------
     if fn in ('schemes/enc/v1.processSegments', 'schemes/enc/v1.readHeader'):
         if kind == 'assert':
@@ -195,9 +193,10 @@ def rule(fn, kind, expr, ordn, guards, contract):
         if expr in ('t.Implements(typeStringDecoder)', 'reflect.PtrTo(t).Implements(typeStringDecoder)', 'reflect.PtrTo(t)', 'reflect.New(t)', 'reflect.New(t).Interface()'):
             return '.typeInvariant "typeStringDecoder is an interface type and t is non-nil; reflect.New(t) is a settable non-nil pointer"'
         if any(c == 't.Implements(typeStringDecoder)' for c in guards):
-            return '.callerContract "a type that implements StringDecoder directly is a pointer type (value-receiver implementations are program text, not input): hypothesis of C07 decodeString_never_panics, decodeString_value_receiver_witness shows it is needed"'
+            # hypothesis of the theorem: a type implementing StringDecoder directly is a pointer type
+            return thm('C07', 'decodeString_never_panics', need('t.Implements(typeStringDecoder)'))
         if expr == 'result.(StringDecoder)':
-            return guarded(need('reflect.PtrTo(t).Implements(typeStringDecoder)'), 'result has type *t, which implements the interface')
+            return thm('C07', 'decodeString_never_panics', need('reflect.PtrTo(t).Implements(typeStringDecoder)'))
         if expr == 't.Kind()':
             return guarded([], 't is non-nil after the first Kind() call returned')
         if expr == 't.Elem()':
